@@ -43,6 +43,14 @@ type CheckCfg struct {
 	Oracle         string             `json:"oracle"`
 }
 
+// outDir is where evidence and replays go (VERIF_OUT overrides, for scratch evaluations).
+func outDir() string {
+	if d := os.Getenv("VERIF_OUT"); d != "" {
+		return d
+	}
+	return verifDir()
+}
+
 func verifDir() string {
 	if d := os.Getenv("VERIF_DIR"); d != "" {
 		return d
@@ -107,8 +115,8 @@ func runCheck(id, tier string) int {
 	t0 := time.Now()
 	vd := verifDir()
 	os.MkdirAll(filepath.Join(vd, ".work"), 0o755)
-	os.MkdirAll(filepath.Join(vd, "evidence"), 0o755)
-	os.MkdirAll(filepath.Join(vd, "replays"), 0o755)
+	os.MkdirAll(filepath.Join(outDir(), "evidence"), 0o755)
+	os.MkdirAll(filepath.Join(outDir(), "replays"), 0o755)
 	cb, err := os.ReadFile(filepath.Join(vd, "checks", id+".json"))
 	if err != nil {
 		fmt.Fprintln(os.Stderr, "cannot read check config:", err)
@@ -291,9 +299,9 @@ func runCheck(id, tier string) int {
 			b, _ := json.MarshalIndent(nt, "", " ")
 			h := sha1.Sum(b)
 			if pends[i].kf != "" {
-				pends[i].file = filepath.Join(vd, "replays", fmt.Sprintf("%s-%s-%s.json", id, pends[i].kf, tier))
+				pends[i].file = filepath.Join(outDir(), "replays", fmt.Sprintf("%s-%s-%s.json", id, pends[i].kf, tier))
 			} else {
-				pends[i].file = filepath.Join(vd, "replays", fmt.Sprintf("%s-%s-%x.json", id, v.Harness, h[:5]))
+				pends[i].file = filepath.Join(outDir(), "replays", fmt.Sprintf("%s-%s-%x.json", id, v.Harness, h[:5]))
 			}
 			os.WriteFile(pends[i].file, b, 0o644)
 		}
@@ -394,7 +402,7 @@ func runCheck(id, tier string) int {
 				nr := res[j]
 				if nr.Outcome != "pass" || strings.Join(nr.Covers, "|") != strings.Join(s.Covers, "|") {
 					valMismatch++
-					f := filepath.Join(vd, "replays", fmt.Sprintf("%s-validation-mismatch-%d.json", id, valMismatch))
+					f := filepath.Join(outDir(), "replays", fmt.Sprintf("%s-validation-mismatch-%d.json", id, valMismatch))
 					b, _ := json.MarshalIndent(tapes[j], "", " ")
 					os.WriteFile(f, b, 0o644)
 					inconclusive = append(inconclusive, fmt.Sprintf("translator validation: %s shape{%s}: engine path completes with covers %v, native run gives %s %s %s covers %v (tape %s)",
@@ -538,7 +546,7 @@ func writeEvidence(id, tier string, seed int64, results []*HarnessResult, cc *Ch
 		"wall_s": wall, "violations": len(viol),
 	}
 	b, _ := json.MarshalIndent(ev, "", " ")
-	os.WriteFile(filepath.Join(verifDir(), "evidence", id+".json"), b, 0o644)
+	os.WriteFile(filepath.Join(outDir(), "evidence", id+".json"), b, 0o644)
 }
 
 func containsSub(xs []string, sub string) bool {
